@@ -43,6 +43,7 @@ FIXTURE_SEED = {
     'NILSTATE': 'K3-set-nil-not-unlinked-on-red-parent',
     'COLOR': 'K2-key-insert-new-black',
     'CLIMB': 'CL1-set-after-climb-node-is-new-parent',
+    'PROGRESS': 'PG1-key-expire-root-no-removal',
 }
 # second fixture for LIVE on the seg family
 EXTRA_FIXTURES = {'C03': ['L4-seg-expiry-le'], 'C16': ['L4-seg-expiry-le']}
